@@ -196,22 +196,22 @@ EXTRA_MODULES = {
     "C02": _IMP,
     "C04": _IMP,
     "C05": [_TXT, _TXT + "_SetFen", _TXT + "_Uci", _TXT + "_Rules"],
-    "C06": ["Rawr.Proofs.RustImpAgree", _TXT, _TXT + "_GetFen", _TXT + "_SetFen", _TXT + "_Rules"],
+    "C06": ["Rawr.Proofs.RustImpAgree", _TXT, _TXT + "_GetFen", _TXT + "_GetFenRules", _TXT + "_SetFen"],
     "C07": ["Rawr.Proofs.RustImpAgree", _TXT, _TXT + "_SetFen"],
     "C09": [_TXT, _TXT + "_SetFen", _TXT + "_Uci", _TXT + "_Rules"],
     "C15": [_TXT, _TXT + "_Go", _TXT + "_SetFen", _TXT + "_Uci"] + _SESS,
     "C08": ["Rawr.Proofs.RustFnsAgree"] + _IMP + ["Rawr.Proofs.RustSearchAgree", "Rawr.Proofs.RustSearchAgree_Perft", _TXT + "_Go", "Rawr.Props.SpecSanity"],
     "C10": ["Rawr.Proofs.RustFnsAgree"],
-    "C14": ["Rawr.Proofs.RustFnsAgree"] + _SRCH,
-    "C03": ["Rawr.Proofs.RustFnsAgree"] + _SRCH,
+    "C14": ["Rawr.Proofs.RustTimeAgree"] + _SRCH,
+    "C03": ["Rawr.Proofs.RustTimeAgree"] + _SRCH,
     "C11": _SRCH,
     "C12": _SRCH,
     "C13": _SRCH,
     "C16": ["Rawr.Proofs.RustSearchAgree", _TXT, _TXT + "_Go", _TXT + "_SetFen", _TXT + "_Uci"] + _SESS,
-    "C17": ["Rawr.Proofs.RustFnsAgree", "Rawr.Proofs.RustImpAgree"],
+    "C17": ["Rawr.Proofs.RustFnsAgree", "Rawr.Proofs.RustImpAgree", "Rawr.Proofs.RustImpAgree_Eval"],
     "C18": ["Rawr.Proofs.RustSearchAgree"],
     "C20": ["Rawr.Proofs.PyStyleAgree", "Rawr.Proofs.PyStyleAgree_Game"],
-    "C19": ["Rawr.Proofs.RustImpAgree", "Rawr.Proofs.RustSearchAgree", "Rawr.Proofs.RustSearchAgree_Sort", "Rawr.Proofs.RustSearchAgree_QSearch"],
+    "C19": ["Rawr.Proofs.RustImpAgree", "Rawr.Proofs.RustImpAgree_Eval", "Rawr.Proofs.RustSearchAgree", "Rawr.Proofs.RustSearchAgree_Sort", "Rawr.Proofs.RustSearchAgree_QSearch"],
 }
 
 
@@ -223,7 +223,7 @@ def run_rust2lean():
     rc5, out5 = sh([sys.executable, os.path.join(VERIF, "tools", "py2lean_style.py")])
     rc6, out6 = sh([sys.executable, os.path.join(VERIF, "tools", "rust2lean_session.py")])
     global TRANSLATORS
-    TRANSLATORS = {"RustFnsAgree": (rc == 0, out.strip()), "RustImpAgree": (rc2 == 0, out2.strip()),
+    TRANSLATORS = {"RustFnsAgree": (rc in (0, 4), out.strip()), "RustTimeAgree": (rc in (0, 3), out.strip()), "RustImpAgree": (rc2 == 0, out2.strip()),
                    "RustSearchAgree": (rc3 == 0 and rc2 == 0, (out3.strip() if rc3 else out2.strip())),
                    "RustTextAgree": (rc4 == 0 and rc2 == 0, (out4.strip() if rc4 else out2.strip())),
                    "PyStyleAgree": (rc5 == 0, out5.strip()),
